@@ -527,7 +527,21 @@ def step1 (st : St) (op impl : String) : St × StepOut :=
       | _ => none
     let sup := ((iw.findSome? (parseKV · "sup")).getD "").splitOn ","
     let exited := (iw.findSome? (parseKV · "exited")) == some "1"
-    let orc := oracleStress (flag "drain") (flag "stop") rs handled drain sup exited
+    -- round 4: stoppers / a killer racing free-running; judged by the epoch-free port oracle
+    let calls : List StopPorts.Call := match (iw.findSome? (parseKV · "calls")) with
+      | some "-" => []
+      | some v => (v.splitOn ",").filterMap (fun (e : String) => match e.splitOn ":" with
+          | [k, r, res] => some ⟨k == "kill", r.toNat?, res == "ok", 0⟩
+          | _ => none)
+      | none => []
+    let terms := sup.filter (·.startsWith "Terminated:")
+    let exit? := terms.head?.map (fun t => parseReason? (t.drop 11).toString)
+    let portOrc :=
+      (match exit? with | some none => ["exit-reason-unknown"] | _ => []) ++
+      (if terms.length ≤ 1 then [] else ["exited-twice"]) ++
+      ({ calls := calls, exit := exit?.join, marker := flag "drain", handledOverPort := 0,
+         final := !calls.isEmpty } : StopPorts.Obs).freeViolations
+    let orc := oracleStress (flag "drain") (flag "stop") rs handled drain sup exited ++ portOrc
     -- no model replay: free-running threads are judged by the oracle only
     (st, { model := impl, oracle := orc, nontrivial := flag "drain" && rs.any (·.res != "ok") && rs.any (·.res == "ok") })
   | _ => (st, { model := "bad-op" })
